@@ -36,6 +36,9 @@ FORMS = {
     "insert_at": "do def r = insert_at(s, i, v); [r, s] end",
     "delete_at": "do def r = delete_at(s, i); [r, s] end",
     "split_join": "s[0 to a] + s[a to *]",
+    # the prefix before position i extended by the element at position i is
+    # the prefix before i + 1 (i = 0: the empty prefix on the left)
+    "prefix_elem": "s[0 to i] + s[i]",
     "len_cat": "[length(s + t), length(s) + length(t), (s + t)[length(s) to *]]",
     "find_cat": "find(s + p + t, p)",
     "rev_rev": "List->reverse(List->reverse(s))",
@@ -92,6 +95,8 @@ def cases_for(s, K, big=False):
         ok = 0 <= j < n
         yield "idx", {"s": s, "i": i}, \
             [val(s[j])] if ok else [RT]
+        if ok and i >= 0:
+            yield "prefix_elem", {"s": s, "i": i}, [val(s[:i + 1])]
         if ok:
             exp = s[:j] + newv + s[j + 1:] if isstr \
                 else s[:j] + [newv] + s[j + 1:]
